@@ -79,7 +79,14 @@ func main() {
 			cs = chainsim.WithExtraCases(cs, r.Seed, r.Pick(16, 200), "keymanager")
 			// Start-up witness of the listed finding c17/missing-stake-claim/churp-instance-of-the-genesis-document
 			// (fixed seed: independent of VERIF_SEED; last case, so the other cases keep their indices).
-			return append(cs, chainsim.Case{Index: len(cs), Seed: 5, Profile: "keymanager", Blocks: 8, Mode: "genesis-churp"})
+			cs = append(cs, chainsim.Case{Index: len(cs), Seed: 5, Profile: "keymanager", Blocks: 8, Mode: "genesis-churp"})
+			// VRF beacon backend (VRF key rotations in the middle of an epoch, election eligibility reset);
+			// after the witness case, so that every earlier case keeps its index and seed.
+			vs := chainsim.WithExtraCases(cs, r.Seed, r.Pick(8, 150), "vrf")
+			for i := len(cs); i < len(vs); i++ {
+				vs[i].Blocks = r.Pick(60, 120)
+			}
+			return vs
 		},
 		RunCase: runCase,
 		Floor:   10,
